@@ -317,6 +317,9 @@ type Stream struct {
 	Results  []solver.Result
 	Models   [][]bool
 	Closed   bool
+	// ClosedAtReturn: the channel was closed at the moment the library call returned (observed in the
+	// producer thread, with no scheduling point between the return and the observation)
+	ClosedAtReturn bool
 	Returned solver.Result
 	Count    int
 	Panic    string
@@ -374,6 +377,7 @@ func RunStream(c StreamCase) (st Stream) {
 				xSend(done, struct{}{})
 			}()
 			st.Returned = s.Optimal(ch, nil)
+			st.ClosedAtReturn = xIsClosed(ch)
 		})
 		for {
 			r, ok := xRecv(ch)
@@ -396,6 +400,7 @@ func RunStream(c StreamCase) (st Stream) {
 				xSend(done, struct{}{})
 			}()
 			st.Count = s.Enumerate(ch, nil)
+			st.ClosedAtReturn = xIsClosed(ch)
 		})
 		for {
 			m, ok := xRecv(ch)
